@@ -300,7 +300,8 @@ func c04Alphabet(contacts []string, full bool) []mOp {
 	}
 	out = append(out, mOp{Kind: "cr-enable"}, mOp{Kind: "cr-disable"}, mOp{Kind: "cr-reset"})
 	if full {
-		out = append(out, mOp{Kind: "join"}, mOp{Kind: "leave"}, mOp{Kind: "credential", Variant: 1})
+		// "replicating" appends an event type the index has no handler for, "app-meta" one whose handler keeps no state
+		out = append(out, mOp{Kind: "join"}, mOp{Kind: "leave"}, mOp{Kind: "credential", Variant: 1}, mOp{Kind: "replicating"}, mOp{Kind: "app-meta"})
 	}
 	return out
 }
@@ -418,7 +419,7 @@ func c04MultiMember(rep *vrep.Report, w *vWorld, thorough bool) {
 		who int
 		do  string
 	}
-	steps := []step{{0, "add-device"}, {0, "claim"}, {1, "add-device"}, {0, "send-secret:1"}, {1, "send-secret:0"}, {2, "add-device"}, {1, "app-metadata"}, {2, "send-secret:1"}}
+	steps := []step{{0, "add-device"}, {0, "claim"}, {1, "add-device"}, {1, "alias-proof"}, {0, "send-secret:1"}, {1, "send-secret:0"}, {2, "add-device"}, {1, "app-metadata"}, {2, "send-secret:1"}, {0, "replicating"}}
 	for _, s := range steps {
 		ms := gcs[s.who].MetadataStore()
 		var err error
@@ -429,6 +430,10 @@ func c04MultiMember(rep *vrep.Report, w *vWorld, thorough bool) {
 			_, err = ms.ClaimGroupOwnership(w.ctx, gsk)
 		case s.do == "app-metadata":
 			_, err = ms.SendAppMetadata(w.ctx, []byte("hello"))
+		case s.do == "alias-proof":
+			_, err = ms.SendAliasProof(w.ctx) // an event type the index has no handler for
+		case s.do == "replicating":
+			_, err = ms.SendGroupReplicating(w.ctx, "https://auth.example", "replication.example")
 		case strings.HasPrefix(s.do, "send-secret:"):
 			var to int
 			fmt.Sscanf(s.do, "send-secret:%d", &to)
@@ -440,7 +445,7 @@ func c04MultiMember(rep *vrep.Report, w *vWorld, thorough bool) {
 	want := metaState(gcs[0].MetadataStore())
 	n := len(logHashes(gcs[0].MetadataStore()))
 	viol := func(kind, desc string) {
-		rep.Violation("C04/"+kind, "multi-member group history [add-device claim add-device send-secret x2 add-device app-metadata send-secret]: "+desc, c04Case{Scenario: "multimember", Detail: desc})
+		rep.Violation("C04/"+kind, "multi-member group history [add-device claim add-device alias-proof send-secret x2 add-device app-metadata send-secret replicating]: "+desc, c04Case{Scenario: "multimember", Detail: desc})
 	}
 	// reference: 2 members (A, B), 3 devices, exactly one admin (A's member key)
 	if c := strings.Count(strings.Split(strings.Split(want, "admins=[")[1], "]")[0], " ") + 1; c != 1 || strings.Contains(want, "admins=[]") {
